@@ -1,6 +1,7 @@
 package main
 
 import (
+	"fmt"
 	"go/ast"
 	"go/token"
 	"strings"
@@ -21,6 +22,7 @@ func init() {
 func runC11(c *Ctx) {
 	c.Rule("one-range-per-requested-value", "V1: every iteration appends once; V2: the three miss cases append NotFoundRange", 2)
 	c.Rule("single-lookup-reports-not-found", "NotFoundRange → NotFoundRangeErr", 1)
+	c.Rule("sampled-offsets-stride", "value k kept iff (k-1) mod sampling == 0, also for sampling 1", 3)
 	p := c.Load("pkg/block/indexheader")
 	if p == nil {
 		return
@@ -150,6 +152,73 @@ func runC11(c *Ctx) {
 	}
 	c.Check(okV2, "one-range-per-requested-value", construct+"#v2-misses", p.Pos(fn.Decl.Pos()), "v2-miss-cases",
 		"the sampled lookup must append NotFoundRange for values before the first value, past the end of the table, and between table entries (found "+strings.Join(contexts, " | ")+")")
+
+	// sampling: value number k (1-based) of a label is kept in memory iff (k−1) mod sampling == 0, for
+	// every sampling rate including 1 ("keep all"): every test of the running value count against the
+	// sampling rate is compared (E9) with that formula.
+	if init := p.Func(rel, "BinaryReader", "init"); init == nil {
+		c.Incomplete("sampled-offsets-stride", rel+".(*BinaryReader).init", "", "function not found")
+	} else {
+		n := 0
+		for _, f := range append([]*Fn{init}, p.Lits(init)...) {
+			inspectNoLit(f.Body(), func(nd ast.Node) bool {
+				is, ok := nd.(*ast.IfStmt)
+				if !ok {
+					return true
+				}
+				t := stmtText(p, is.Cond)
+				if !strings.Contains(t, "postingOffsetsInMemSampling") || !strings.Contains(t, "%") {
+					return true
+				}
+				// the counter: the identifier on the left of %
+				var counter string
+				ast.Inspect(is.Cond, func(x ast.Node) bool {
+					if be, ok := x.(*ast.BinaryExpr); ok && be.Op == token.REM {
+						ast.Inspect(be.X, func(y ast.Node) bool {
+							if id, ok := y.(*ast.Ident); ok && counter == "" {
+								counter = id.Name
+							}
+							return true
+						})
+					}
+					return true
+				})
+				ob := fmt.Sprintf("%s.(*BinaryReader).init#stride[%d]", rel, n)
+				n++
+				x := newE9(p, f, func(e ast.Expr, text string) string {
+					tt := strings.ReplaceAll(text, " ", "")
+					switch {
+					case tt == counter:
+						return "k"
+					case strings.HasSuffix(tt, ".postingOffsetsInMemSampling"):
+						return "s"
+					}
+					return ""
+				})
+				// is the condition the "kept" test or its negation? decide at k=1 (always kept)
+				first, err0 := x.eval(is.Cond, map[string]int64{"k": 1, "s": 3})
+				cnt, cx, err := e9Table([]string{"k", "s"}, intRange(1, 9), func(env map[string]int64) bool { return env["s"] <= 4 },
+					func(env map[string]int64) (int64, error) { v, err := x.eval(is.Cond, env); return b2i(v.b), err },
+					func(env map[string]int64) int64 {
+						kept := (env["k"]-1)%env["s"] == 0
+						if first.b {
+							return b2i(kept)
+						}
+						return b2i(!kept)
+					})
+				if err == nil {
+					err = err0
+				}
+				c.Stats["assignments_evaluated"] += cnt
+				reportE9(c, "sampled-offsets-stride", ob, p.Pos(is.Pos()), cx, err,
+					"the test that decides which values are kept in memory differs from (k−1) mod sampling == 0; with a sampling rate of 1 not every value would be kept")
+				return true
+			})
+		}
+		if n == 0 {
+			c.Incomplete("sampled-offsets-stride", rel+".(*BinaryReader).init", p.Pos(init.Decl.Pos()), "no sampling test found")
+		}
+	}
 
 	if po := p.Func(rel, "BinaryReader", "PostingsOffset"); po == nil {
 		c.Incomplete("single-lookup-reports-not-found", rel+".(*BinaryReader).PostingsOffset", "", "function not found")
